@@ -168,7 +168,21 @@ def gen_plan(rng: Rng, tier: str, faulty: bool, profile: str = "loader",
         if faulty:
             fr = r.fork("faults")
             victim = fr.choice(world["files"])["name"]
-            kind = fr.weighted([("truncate", 4), ("read_eio", 3), ("vanish", 3), ("no_access", 1), ("none", 1), ("flip_byte", 3)])
+            kind = fr.weighted([("truncate", 4), ("read_eio", 4), ("vanish", 3), ("no_access", 1), ("none", 1), ("flip_byte", 3),
+                                ("fork_fail", 2), ("open_fail", 1)])
+            if kind in ("read_eio", "vanish", "fork_fail", "open_fail") and fr.chance(0.5):
+                # the fault is a single event: the user tries again - on the same object where there is one
+                retries = []
+                for o in sess["ops"]:
+                    if o["op"] == "load" and "mp" in o and fr.chance(0.5):
+                        o["mp"] = False   # the sequential path keeps state between the files of one call
+                    retries.append(o)
+                    if o["op"] == "load":
+                        retries.append(dict(o, retry_same_object=(o.get("mode") in ("full", "parse", "single"))))
+                sess["ops"] = retries
+                if len(world["files"]) > 2 and fr.chance(0.6):
+                    # fail late: the files before the victim have been processed when the error arrives
+                    victim = fr.choice(sorted(world["files"], key=lambda f: f["rank"])[2:])["name"]
             if kind == "flip_byte":
                 sess["pre"].append({"kind": "flip_byte", "path": victim, "pos": fr.below(1 << 30),
                                     "mask": fr.choice([0x01, 0x02, 0x10, 0x20, 0x80, 0xFF])})
@@ -176,9 +190,19 @@ def gen_plan(rng: Rng, tier: str, faulty: bool, profile: str = "loader",
                 sess["pre"].append({"kind": "truncate", "path": victim,
                                     "fraction": fr.choice([0.0, 0.1, 0.5, 0.9, 0.99])})
             elif kind == "read_eio":
+                # an I/O error on one read call: the persistent kind (EIO) or one of the transient ones
                 sess["env"].setdefault("faults", []).append(
                     {"kind": "read_eio", "path": victim, "open_k": fr.choice([None, 0, 1, 2]),
-                     "call": fr.choice([0, 0, 1, 2, 5])})
+                     "call": fr.choice([0, 0, 1, 2, 5]),
+                     "errno": fr.choice(["EIO", "EIO", "EIO", "ESTALE", "ETIMEDOUT", "EAGAIN", "EINTR"])})
+            elif kind == "fork_fail":
+                # process creation refused while the pool is built (process limit, memory for page tables)
+                sess["env"].setdefault("faults", []).append(
+                    {"kind": "fork_fail", "pool": fr.choice([0, 0, 1]), "errno": fr.choice(["EAGAIN", "ENOMEM"])})
+            elif kind == "open_fail":
+                sess["env"].setdefault("faults", []).append(
+                    {"kind": "open_eacces", "path": victim, "cls": "r", "open_k": fr.choice([None, 1, 2]),
+                     "errno": fr.choice(["EMFILE", "ENFILE", "EACCES"])})
             elif kind == "vanish":
                 sess["env"].setdefault("faults", []).append(
                     {"kind": "vanish", "path": victim, "when": "open", "open_k": fr.choice([0, 1, 1, 2])})
